@@ -90,7 +90,7 @@ func runConc(in concIn) (interface{}, error) {
 				if err != nil {
 					return
 				}
-				req := &http.Request{Method: "GET", URL: u, Host: in.Host, Header: http.Header{}, RequestURI: target}
+				req := &http.Request{Method: "GET", URL: u, Host: in.Host, Header: http.Header{}, RequestURI: target, RemoteAddr: "127.0.0.1:1"}
 				rec := httptest.NewRecorder()
 				if msg := serveRecover(p, rec, req); msg != "" {
 					mu.Lock()
